@@ -135,11 +135,33 @@ def gen_cascade(rng, alphabet: List[str]) -> Dict[str, Any]:
             "allow_pre": False, "max_downgrade": rng.choice([None, None, 1, 2]), "only_binary": None}
 
 
+def gen_deepconflict(rng, alphabet: List[str]) -> Dict[str, Any]:
+    """Structured scenario: every release of one project takes part in the same conflict (all need x >= hi while another
+    input needs x < hi); the number of releases ranges from a few to far more than any downgrade budget."""
+    a, b, x = rng.sample(NAMES, 3)
+    sp = lambda n: rng.choice(SPELL[n])
+    n = rng.choice([2, 3, 4, 5, 8, 45, 60])
+    a_versions = ["1.%d" % i for i in range(n)]
+    universe = {
+        a: [(sp(a), v, [sp(x) + ">=2.0"], True, False) for v in a_versions],
+        b: [(sp(b), "1.0", [sp(x) + rng.choice(["<2.0", "<=1.1", "==1.0"])], True, False)],
+        x: [(sp(x), v, [], True, False) for v in ("1.0", "2.0", "2.1")],
+    }
+    for k in universe:
+        rng.shuffle(universe[k])
+    ins = [sp(a), sp(b)]
+    rng.shuffle(ins)
+    return {"mode": "deepconflict", "universe": universe, "inputs": [("in0.txt", ins)], "constraints": None, "remove_constraints": False,
+            "allow_pre": False, "max_downgrade": rng.choice([None, None, 1, 2, 3]), "only_binary": None}
+
+
 def gen_case(rng, alphabet: List[str], mode: Optional[str] = None) -> Dict[str, Any]:
     """One whole-compile case.  mode: None (mixed) | 'calm' | 'conflict' | 'extras' | 'dense' | 'cascade'"""
     mode = mode or rng.choice(["calm", "calm", "conflict", "conflict", "extras", "dense"])
     if mode == "cascade":
         return gen_cascade(rng, alphabet)
+    if mode == "deepconflict":
+        return gen_deepconflict(rng, alphabet)
     nproj = rng.choice([2, 3, 4, 4, 5, 6])
     projs = NAMES[:nproj]
     versions: Dict[str, List[str]] = {}
